@@ -138,11 +138,26 @@ def _rlock_factory():
     return net.SimRLock(kernel)
 
 
+_TRIPWIRE_EVENTS = frozenset(['socket.__new__', 'socket.connect', 'socket.bind', 'socket.sendto', 'socket.sendmsg', 'socket.getaddrinfo',
+                              'time.sleep', 'subprocess.Popen', 'os.fork', 'os.posix_spawn', '_thread.start_new_thread'])
+
+
+def _tripwire(event, args):
+    # code under test that slips past a seam to a real socket, a real sleep, a subprocess or an
+    # unmanaged thread while it runs as a simulated task cannot go unnoticed: harness error
+    if event in _TRIPWIRE_EVENTS:
+        k = CURRENT
+        if k is not None and k.current is not None and not k.shutting_down and not k.spawning:
+            k.counters['tripwire:' + event] = k.counters.get('tripwire:' + event, 0) + 1
+            raise HarnessError('simulated task %s reached the operating system: %s' % (k.current.name, event))
+
+
 def install():
     """Idempotent; done once per process before any pymodbus object is built."""
     global _installed
     if _installed:
         return
+    sys.addaudithook(_tripwire)
     if '/repo' not in sys.path:
         sys.path.insert(0, '/repo')
     import serial
